@@ -26,7 +26,7 @@ def run(ctx):
             vals = P.rand_vals(rng, cls)
             raw, err = P.encode(cls, vals)
             back = P.decode(cls, raw) if not err else dict(ok=False, exc=err)
-            recs.append(dict(id="p%d" % k, e="penc", cls=cls, vals=vals, raw=raw, err=err, back=back))
+            recs.append(dict(id="p%d" % k, e="penc", cls=cls, vals=P.clean(vals), raw=raw, err=err, back=back))
             k += 1
             if err:
                 continue
